@@ -33,7 +33,7 @@ RULE = ('a short seeded history builds an image (optionally written and reopened
         'operations; distinct = distinct interleaving digests')
 BUDGET = {'quick': 40, 'thorough': 900}
 PROBES = ['reader_steps', 'noise_steps', 'interleaved_between_reads', 'single_client_runs', 'buffered_reader', 'pending_file_stream', 'on_image_stream',
-          'same_blob_two_streams', 'extract_checked', 'seek_beyond_end', 'readinto_steps', 'scratch_write_between_reads', 'boot_info_table_file']
+          'same_blob_two_streams', 'streams_entered_late', 'extract_checked', 'seek_beyond_end', 'readinto_steps', 'scratch_write_between_reads', 'boot_info_table_file']
 ASSUMPTIONS = ['a seek that would land before the start of the stream is an invalid argument (BytesIO clamps for whence 1/2, PyCdlibIO raises): not generated',
                'the boot-info-table window (bytes 8..63) of a boot file that was not mastered yet is compared modulo the table']
 SHRINK_LIST_KEYS = ['schedule', 'ops']
@@ -41,8 +41,8 @@ CHUNK = 10
 
 PROFILE = H.Profile('c16', nops=(2, 10), final_restart=False,
                     weights={'add_fp': 40, 'add_dir': 6, 'add_link': 12, 'rm_file': 2, 'rm_link': 2, 'restart': 0, 'dup_pvd': 0, 'add_isohybrid': 0,
-                             'add_eltorito': 2, 'add_symlink': 1, 'hide': 1, 'mass_dirs': 0.2, 'mass_files': 0.5},
-                    sizes=(1, 7, 64, 100, 2047, 2048, 2049, 4096, 4097, 6143, 10000, 20480, 65535))
+                             'add_eltorito': 5, 'add_symlink': 1, 'hide': 1, 'mass_dirs': 0.2, 'mass_files': 0.5},
+                    sizes=(1, 7, 9, 20, 40, 63, 64, 100, 2047, 2048, 2049, 4096, 4097, 6143, 10000, 20480, 65535))
 
 KW = {'iso': 'iso_path', 'joliet': 'joliet_path', 'udf': 'udf_path', 'rr': 'rr_path'}
 
@@ -99,6 +99,7 @@ def generate(seed, tier='quick'):
                 files.append((ns, path, n.blob))
     plan['clients'] = []
     plan['schedule'] = []
+    plan['late_enter'] = r.choice((None, None, 'in-order', 'reversed'))
     if not files:
         return plan
     single = r.random() < 0.3
@@ -214,6 +215,7 @@ def run_clients(ctx, plan, d, h):
     iso = d.iso
     clients = plan.get('clients') or []
     state = []
+    late = []
     for c in clients:
         if c['kind'] == 'reader':
             node = m.get(c['ns'], c['path'])
@@ -224,7 +226,10 @@ def run_clients(ctx, plan, d, h):
             data = blob_data(b)
             try:
                 raw = iso.open_file_from_iso(**{KW[c['ns']]: c['path']})
-                raw.__enter__()
+                if plan.get('late_enter'):
+                    late.append(raw)        # "with a, b:" - every stream is opened before the first one is entered
+                else:
+                    raw.__enter__()
             except Exception as e:
                 ctx.violate(('open_file_from_iso-raised', type(e).__name__, 'bit' if b.bit else 'plain'), '%s %s: %r' % (c['ns'], c['path'], e))
                 state.append(None)
@@ -238,6 +243,21 @@ def run_clients(ctx, plan, d, h):
             state.append({'stream': stream, 'raw': raw, 'ref': io.BytesIO(data), 'i': 0, 'since': [], 'mask': (b.bit or b.baked), 'len': len(data)})
         else:
             state.append({'i': 0, 'gens': {}})
+    if late:
+        ctx.probes['streams_entered_late'] += 1
+        # something else uses the image between open_file_from_iso() and the with-statement
+        for c in clients:
+            if c['kind'] == 'reader' and m.get(c['ns'], c['path']) is not None:
+                try:
+                    iso.get_file_from_iso_fp(io.BytesIO(), **{KW[c['ns']]: c['path']})
+                except Exception:
+                    pass
+                break
+        for raw in (reversed(late) if plan.get('late_enter') == 'reversed' else late):
+            try:
+                raw.__enter__()
+            except Exception as e:
+                ctx.violate(('stream-enter-raised', type(e).__name__), repr(e))
     blobs_open = [c['blob'] for c in clients if c['kind'] == 'reader']
     if len(blobs_open) != len(set(blobs_open)):
         ctx.probes['same_blob_two_streams'] += 1
